@@ -125,7 +125,8 @@ class rule_029(structure.Rule):
                         oMyToi = oToi.extract_tokens(iStartIndex, iToken)
                         oViolation = violation.New(oToi.get_line_number(), oMyToi, sSolution)
                         oViolation.set_action(dAction)
-                        self.add_violation(oViolation)
+                        if not oMyToi.token_type_exists(parser.comment):
+                            self.add_violation(oViolation)
                         bEventFound = False
 
                 elif self.clock == "event":
@@ -152,7 +153,8 @@ class rule_029(structure.Rule):
                         oMyToi = oToi.extract_tokens(iStartIndex, iToken)
                         oViolation = violation.New(oToi.get_line_number(), oMyToi, sSolution)
                         oViolation.set_action(dAction)
-                        self.add_violation(oViolation)
+                        if not oMyToi.token_type_exists(parser.comment):
+                            self.add_violation(oViolation)
                         bEventFound = False
                 else:
                     sys.stderr.write("Invalid configuration option " + self.clock)
